@@ -71,6 +71,7 @@ fn main() {
     let stdin = std::io::stdin();
     let out = std::io::stdout();
     let mut out = std::io::BufWriter::new(out.lock());
+    let mut files: Vec<(String, Vec<u8>)> = vec![];
     for line in stdin.lock().lines() {
         let line = line.unwrap();
         if line.trim().is_empty() {
@@ -78,6 +79,9 @@ fn main() {
         }
         let c: Value = serde_json::from_str(&line).unwrap();
         let bytes = hex_decode(c["hex"].as_str().unwrap());
+        if files.len() < 48 {
+            files.push((c["id"].as_str().unwrap_or("?").to_string(), bytes.clone()));
+        }
         let ase = match AsepriteFile::read(&bytes[..]) {
             Ok(a) => a,
             Err(_) => continue,
@@ -119,6 +123,42 @@ fn main() {
         });
         for (t, log) in logs.iter().enumerate() {
             writeln!(out, "{}", json!({"ev": "thread", "thread": t, "calls": log.iter().map(|(k, _)| k + 1).collect::<Vec<_>>(), "results": log.iter().map(|(_, r)| r.clone()).collect::<Vec<_>>()})).unwrap();
+        }
+    }
+    // loading is a function of the bytes: the same file loaded concurrently in several threads, while other threads load
+    // OTHER files, reports what a sequential load reports (no parser state shared between loads)
+    let load_obs = |b: &[u8]| -> String {
+        match AsepriteFile::read(b) {
+            Ok(a) => eval(&a, &Call::Obs),
+            Err(e) => format!("err:{}", e),
+        }
+    };
+    for (i, (id, bytes)) in files.iter().enumerate() {
+        let base = load_obs(bytes);
+        writeln!(out, "{}", json!({"ev": "baseline", "case": format!("{}|parallel-load", id), "calls": ["LoadObs"], "results": [base.clone()], "again": [load_obs(bytes)]})).unwrap();
+        let reporters = (nthreads / 2).max(1);
+        let logs: Vec<Vec<String>> = std::thread::scope(|s| {
+            let hs: Vec<_> = (0..nthreads)
+                .map(|t| {
+                    let files = &files;
+                    let load_obs = &load_obs;
+                    s.spawn(move || {
+                        let mut log = vec![];
+                        for r in 0..rounds {
+                            if t < reporters {
+                                log.push(load_obs(bytes));
+                            } else {
+                                let _ = load_obs(&files[(i + 1 + t + r * 7) % files.len()].1);
+                            }
+                        }
+                        log
+                    })
+                })
+                .collect();
+            hs.into_iter().map(|h| h.join().unwrap()).collect()
+        });
+        for (t, log) in logs.iter().enumerate().filter(|(_, l)| !l.is_empty()) {
+            writeln!(out, "{}", json!({"ev": "thread", "thread": t, "calls": log.iter().map(|_| 1).collect::<Vec<_>>(), "results": log})).unwrap();
         }
     }
     out.flush().unwrap();
